@@ -14,6 +14,8 @@ CONSTANTS
   NaNTest = "identity"
   StrideOff = 0
   ReorderMode = "bylayout"
+  ZeroGuard = "guarded"
+  Gens = {1,2,3}
   Ordered = FALSE
   Export = FALSE
 INVARIANT EachSampleOnce
@@ -23,6 +25,7 @@ INVARIANT VarianceIsTwoPass
 INVARIANT ScheduleIndependent
 INVARIANT NoError
 INVARIANT DirectVarLemma
+INVARIANT ZeroWeightLemma
 INVARIANT FitsInv
 CONSTRAINT Emit
 CHECK_DEADLOCK FALSE
